@@ -1592,7 +1592,7 @@ func TestVerifC09(t *testing.T) {
 			"unchanged rule = same methods, url pattern, policyRef text and same effective policy (name and fields); a switched defaultPolicyRef makes the rules without own policyRef changed rules (fresh limiter, new policy); renamed policies / duplicate rules not generated",
 			"first matching url rule limits a request",
 			"mqtt: 'less than one packet' uses the largest packet admitted in the period; a rejection may also be justified by byte overshoot carried from earlier periods",
-			"mqttc: a PUBLISH is admitted iff it reached the publish pipeline or was answered with a PUBACK of its id; every PUBLISH (any QoS, DUP, RETAIN) is one packet of its wire size against the limiter of its connection; the limiter may charge up to 8 bytes of framing on top of the wire size; PINGREQ/PUBACK take no permit",
+			"mqttc: a PUBLISH is admitted iff it reached the publish pipeline (PUBACKs are recorded, not judged); every PUBLISH (any QoS, DUP, RETAIN) is one packet of its wire size against the limiter of its connection; the limiter may charge up to 8 bytes of framing on top of the wire size; PINGREQ/PUBACK take no permit",
 			"mqttc: a connection that created its own limiter starts a fresh budget (periods counted from that creation), one that did not continues the ledger of the previous connection with the same client id; the connection limiter is one broker-wide ledger over all CONNECT packets",
 		},
 	})
